@@ -1131,6 +1131,61 @@ theorem interrupted_then_resumed_agrees {k : Kit P S} {cfg cfg' : SmcCfg S} (hcf
   obtain ⟨st, stop, hr, rfl⟩ := interrupted_ckpts_on_the_way hi
   exact resume_agrees_with_uninterrupted hcfg hr hc
 
+/-- the history of a run that was interrupted and resumed is the history of the uninterrupted run
+    (so every statement of this file about the latter holds for the former, with the populations
+    stored before and after the interruption in one list) -/
+theorem resumed_history_is_uninterrupted_history {k : Kit P S} {cfg cfg' : SmcCfg S}
+    (hcfg : CfgSim cfg cfg') {zero : S} {p0 : P} {all : List (Step P)} {j : Nat}
+    {cs : List (Ckpt P S)} (hi : run k cfg zero p0 (all.take j) = .interrupted cs) {c : Ckpt P S}
+    (hc : c ∈ cs) {r' : Result P S} (h : resume k cfg' c all = .done r') :
+    ∃ r, run k cfg zero p0 all = .done r ∧ r'.st.hist = r.st.hist ∧ r'.st.iter = r.st.iter ∧
+      r'.st.beta = r.st.beta ∧ r'.pop = r.pop := by
+  obtain ⟨r, h1, -, -, h4, h5, h6, h7, -⟩ := (interrupted_then_resumed_agrees hcfg hi hc).done_right h
+  exact ⟨r, h1, h5, h6, h7, h4⟩
+
+/-- checkpoints written inside the loop carry no evidence -/
+theorem ckpt_logZ_none {k : Kit P S} {cfg : SmcCfg S} {zero : S} {p0 : P} {st : St P S}
+    (h : Reach k cfg zero p0 st) : ∀ c ∈ st.ckpts, c.logZ = none := by
+  induction h with
+  | init => intro c hc; simp [initSt] at hc
+  | @step st st' s stop _ hi ih =>
+    intro c hc
+    obtain ⟨b, m, -, rfl, -⟩ := iterate_ok hi
+    rcases mc_ckpts cfg false (stepSt k cfg st b m s.mutated) none with e | e <;> rw [e] at hc
+    · exact ih c hc
+    · rcases List.mem_append.1 hc with hc | hc
+      · exact ih c hc
+      · rw [List.mem_singleton] at hc; subst hc; rfl
+
+/-- at a state where the loop broke, the resume prologue skips the loop (the last recorded
+    temperature is 1, or the step cap is reached) -/
+theorem flag_false_of_stopped {k : Kit P S} {cfg : SmcCfg S} {zero : S} {p0 : P}
+    {all : List (Step P)} {st : St P S} (h : ReachOn k cfg zero p0 all st true) (c : Ckpt P S)
+    (hh : c.hist = st.hist) (hi : c.iter = st.iter) : resumeLoopFlag k cfg c = false := by
+  cases h with
+  | @step st0 _ s _ h0 hs hit =>
+    obtain ⟨b, m, -, rfl, hstop⟩ := iterate_ok hit
+    simp only [mc_hist, mc_iter] at hh hi
+    unfold resumeLoopFlag
+    simp only [hh, hi, stepSt, stepHist, List.getLast?_concat]
+    unfold stopCond at hstop
+    cases hb : k.isOne b with
+    | true => simp
+    | false =>
+      rw [hb] at hstop
+      cases hm : cfg.maxSteps with
+      | none => rw [hm] at hstop; simp at hstop
+      | some mx => rw [hm] at hstop; simp at hstop; simp [hstop]
+
+/-- a fresh run that returns broke its loop at a state on the way -/
+theorem run_done_on_the_way {k : Kit P S} {cfg : SmcCfg S} {zero : S} {p0 : P}
+    {all : List (Step P)} {r : Result P S} (h : run k cfg zero p0 all = .done r) :
+    ∃ st rest, ReachOn k cfg zero p0 all st true ∧ finish k cfg st rest = some r := by
+  rcases runFrom_done h with ⟨-, st, rest, hl, hf⟩ | ⟨h0, -⟩
+  · have hd : all.drop (initSt (P := P) cfg zero p0).consumed = all ++ [] := by simp [initSt]
+    exact ⟨st, rest, (reachOn_runLoop (k := k) all [] _ ReachOn.init hd).2 st rest hl, hf⟩
+  · cases h0
+
 /-! ### 6. the pinned restore breaks the invariant -/
 
 /-- a tiny concrete instance: populations and scalars are numbers, the schedule adds 1 and stops
